@@ -2,8 +2,8 @@
    these definitions of /repo; tools/srcfacts.py regenerates their normal-form digests on every run (coq/Gen/Src_*.v).
    Statements only. *)
 From Coq Require Import List String.
-From ME Require Import Model.SrcExpected Gen.Src_map Gen.Src_common
-  Proofs.Src_ok_map Proofs.Src_ok_common.
+From ME Require Import Model.SrcExpected Gen.Src_map Gen.Src_common Gen.Src_fproxy Gen.Src_fnocancel
+  Proofs.Src_ok_map Proofs.Src_ok_common Proofs.Src_ok_fproxy Proofs.Src_ok_fnocancel.
 
 (* more_executors/_impl/map.py *)
 Theorem c17_source_map : Src_map.facts = expected_map.
@@ -11,6 +11,14 @@ Proof. exact src_map_ok. Qed.
 (* more_executors/_impl/common.py *)
 Theorem c17_source_common : Src_common.facts = expected_common.
 Proof. exact src_common_ok. Qed.
+(* more_executors/_impl/futures/proxy.py *)
+Theorem c17_source_fproxy : Src_fproxy.facts = expected_fproxy.
+Proof. exact src_fproxy_ok. Qed.
+(* more_executors/_impl/futures/nocancel.py *)
+Theorem c17_source_fnocancel : Src_fnocancel.facts = expected_fnocancel.
+Proof. exact src_fnocancel_ok. Qed.
 
 Print Assumptions c17_source_map.
 Print Assumptions c17_source_common.
+Print Assumptions c17_source_fproxy.
+Print Assumptions c17_source_fnocancel.
